@@ -89,9 +89,62 @@ fn check_wall_clock(case: &Case, obs: &mut Obs) -> Verdict {
     Verdict::Pass
 }
 
+/// mode 8: inputs far too large to diff exactly (LCS tables of 80 M cells): only expiry at the
+/// first probe (virtual and real clock) is executed; the result must be a valid script.
+fn check_expired_only(case: &Case, obs: &mut Obs) -> Verdict {
+    let c = &case.seq;
+    let (old, new) = (&c.old, &c.new);
+    let eq = |i: usize, j: usize| old[i] == new[j];
+    let name = alg_name(c.alg);
+    let oc: Vec<Cnt> = old.iter().map(|x| Cnt(*x)).collect();
+    let nc: Vec<Cnt> = new.iter().map(|x| Cnt(*x)).collect();
+    let (n, m) = (c.or.1 - c.or.0, c.nr.1 - c.nr.0);
+    counting::reset();
+    similar::verif::clock::install(Some(0));
+    let ev = raw_cnt(c, &oc, &nc, Some(far_future()));
+    let post = counting::post_expiry();
+    similar::verif::clock::install(None);
+    let ev = match ev {
+        Ok(e) => e,
+        Err(p) => return Verdict::Fail(format!("{} ({} x {} items) with expiry at the first probe: {}", name, n, m, p)),
+    };
+    if let Err(msg) = validate_raw(&ev, c.old_r(), c.new_r(), &eq) {
+        return Verdict::Fail(format!("{} ({} x {} items) with expiry at the first probe: {} events: {}", name, n, m, ev.len(), msg));
+    }
+    let bound = POST_EXPIRY_FACTOR * (n + m) as u64 + 16;
+    if post > bound {
+        return Verdict::Fail(format!("{} ({} x {} items): {} comparisons after expiry at the first probe, more than {}", name, n, m, post, bound));
+    }
+    if let Some(past) = Instant::now().checked_sub(Duration::from_secs(5)) {
+        match raw_cnt(c, &oc, &nc, Some(past)) {
+            Ok(e) if e == ev => {}
+            Ok(e) => return Verdict::Fail(format!("{}: real deadline in the past gives {} events, virtual expiry at probe 0 gives {}", name, e.len(), ev.len())),
+            Err(p) => return Verdict::Fail(format!("{} with a real deadline in the past: {}", name, p)),
+        }
+    }
+    let ops = match capture(c, Some(0)) {
+        Ok(o) => o,
+        Err(p) => return Verdict::Fail(format!("capture ({} x {} items) with expiry at the first probe: {}", n, m, p)),
+    };
+    if let Err(msg) = super::c02::judge_ops(&ops, old, c.old_r(), new, c.new_r()) {
+        let short: String = msg.chars().take(400).collect();
+        return Verdict::Fail(format!("{} capture ({} x {} items) with expiry at the first probe: {}", name, n, m, short));
+    }
+    if let Err(msg) = normal_form(&ops, &eq) {
+        return Verdict::Fail(format!("{} capture with expiry at the first probe: {}", name, msg));
+    }
+    obs.executions = 3;
+    obs.nontrivial = ev.len() >= 3;
+    obs.class("huge input, expiry at the first probe only");
+    Verdict::Pass
+}
+
 fn check_case(case: &Case, obs: &mut Obs) -> Verdict {
     if case.seq.mode == 7 {
         return check_wall_clock(case, obs);
+    }
+    if case.seq.mode == 8 {
+        return check_expired_only(case, obs);
     }
     let c = &case.seq;
     let (old, new) = (&c.old, &c.new);
@@ -338,6 +391,31 @@ fn enum_small(tier: Tier, f: &mut dyn FnMut(Case) -> bool) {
     }
 }
 
+fn enum_huge(_tier: Tier, f: &mut dyn FnMut(Case) -> bool) {
+    // 9000 x 9000 unrelated items between a common head and tail, full range and a sub-range
+    for alg in 0..3u8 {
+        let head = lcg_seq(40, 50, 9);
+        let tail = lcg_seq(41, 70, 9);
+        let mut a = head.clone();
+        a.extend(lcg_seq(42, 9000, 5).into_iter().map(|x| x + 100));
+        a.extend(tail.iter());
+        let mut b = head.clone();
+        b.extend(lcg_seq(43, 9000, 5).into_iter().map(|x| x + 200));
+        b.extend(tail.iter());
+        for sub in [false, true] {
+            let mut c = SeqCase::full(alg, a.clone(), b.clone());
+            if sub {
+                c.or = (7, a.len());
+                c.nr = (7, b.len() - 3);
+            }
+            c.mode = 8;
+            if !f(Case { seq: c, ks: vec![] }) {
+                return;
+            }
+        }
+    }
+}
+
 fn enum_wall(_tier: Tier, f: &mut dyn FnMut(Case) -> bool) {
     // three tiny inputs whose exact diff differs from the expired-deadline approximation
     for alg in 0..3u8 {
@@ -371,6 +449,14 @@ impl Prop for C07 {
                     scope: format!("all (old,new) over {{0,1}} with lengths <= {} x 3 algorithms x every expiry index", tier.pick(5, 6)),
                     exhaustive: true,
                     gen: enum_small,
+                },
+            },
+            Stage {
+                name: "huge-expired",
+                kind: StageKind::Enumerate {
+                    scope: "9120-item inputs (9000 unrelated items between a common head and tail; an LCS table would have 81 M cells) x 3 algorithms x {full range, sub-range}: expiry at the first probe only (virtual and real clock)".into(),
+                    exhaustive: true,
+                    gen: enum_huge,
                 },
             },
             Stage {
